@@ -611,6 +611,14 @@ def run_property(mod, tier: str, seed: int) -> int:
     broken_proof = audit["discharged"] != audit["obligations"] or audit["obligations"] == 0
     broken_corr = bool(mism_cases) or bool(corr_errors)
 
+    # 4a. thorough tier: the harvested corpus (calls of the modelled functions made by the repository's own test suite, recorded by
+    # harness/harvest_plugin.py) is replayed against the same Corr module and judged by the same oracle (harness/harvest.py)
+    harvested = None
+    if tier == "thorough" and os.environ.get("VERIF_HARVEST", "1") != "0" and not any("build broken" in f or "translation failed" in f for f in audit["failed"]):
+        from harness import harvest as _harvest
+
+        harvested = _harvest.replay_property(prop, known)
+
     # 4b. widen the search when an obligation or the correspondence broke but no failing input is known yet
     new_fail = [f for f in failures if not any(finding_matches(k, f.tags) for k in known)]
     if (broken_proof or broken_corr) and not new_fail and hasattr(mod, "search"):
@@ -706,6 +714,12 @@ def run_property(mod, tier: str, seed: int) -> int:
     }
     if hasattr(mod, "extra_coverage"):
         coverage.update(mod.extra_coverage())
+    if harvested is not None:
+        coverage.update(harvested["coverage"])
+        violations += harvested["violations"]
+        if harvested["violations"]:
+            exit_code = 1
+        print(f"[{prop}] {harvested['line']}")
     write_evidence(prop, tier, seed, coverage, getattr(mod, "ASSUMPTIONS", []), time.time() - t0, violations)
     print(f"[{prop}] tier={tier} seed={seed} obligations={audit['discharged']}/{audit['obligations']} "
           f"cases={len(cases)} corr={len(terms)} mismatches={len(mism_cases)} corr_errors={len(corr_errors)} oracle_failures={len(failures)} "
